@@ -447,6 +447,31 @@ class G:
             elif x < 0.6:
                 sib["cond"] = None
             effects.append(sib)
+        # a forall increase/decrease whose instances all hit ONE ground fluent (the variable occurs only in the
+        # condition or in the value): "forall ranges over all objects" + "increases accumulate" together
+        if pf.get("coinciding_forall") and r.random() < pf["coinciding_forall"]:
+            nums = [fl for fl in self.fluents if fl["type"][0] in ("int", "real")]
+            tys = [t for t, _ in self.types if len(self.objs_of(t)) >= 2]
+            if nums and tys:
+                f = r.choice(nums)
+                fe = self.fluent_exp(f, sc, allow_fluent=False)
+                t = r.choice(tys)
+                v = [f"e_{t}", ["user", t]]
+                ve = ["v", v[0], v[1]]
+                esc = dict(sc)
+                esc["vars"] = [v]
+                x = r.random()
+                if x < 0.35:
+                    cond = ["eq", ve, ve]  # simplifies away: the variable disappears from the ground action
+                elif x < 0.5:
+                    cond = ["or", ["eq", ve, ["o", self.objs_of(t)[0]]], ["not", ["eq", ve, ["o", self.objs_of(t)[0]]]]]
+                else:
+                    cond = self.boolean(1, esc)
+                    if x < 0.8 and self.objs_of(t):
+                        cond = ["and", ["not", ["eq", ve, ["o", r.choice(self.objs_of(t))]]], cond] if r.random() < 0.5 else ["or", ["eq", ve, ve], cond]
+                if fe is not None:
+                    self.feat.add("coinciding-forall")
+                    effects.append({"kind": r.choice(["inc", "dec"]), "fluent": fe, "value": ["i", r.choice([1, 2, 3])], "cond": cond, "forall": [v]})
         return {"name": self.name("a", i), "params": params, "pre": pre, "effects": effects}
 
     def effect(self, sc):
